@@ -33,6 +33,8 @@ CONSTANTS
   TimeExp,    \* "ll": set of exponents te, time ratio 2^te
   PointSets,  \* "gc"/"oct": sequence of point sets, each a sequence of <<lat, lon>> (integer degrees)
   Values,     \* "gc": sequence (same shape) of integer field values
+  AutoBins,   \* "gc": sequence of <<Mnum, Mden, B>>: B equal bins on [0, Mnum/Mden] degrees (automatic
+              \*       binning with a user cut-off length max_dist and bin number bin_no)
   STSets      \* "st": sequence of records [r, te, pts: sequence of <<lat, lon, t>>]
 
 VARIABLES cfg, out
@@ -143,22 +145,35 @@ Chord2(deg) == CASE deg = 0 -> 0 [] deg = 60 -> 1 [] deg = 90 -> 2 [] deg = 120 
 IsLattice(p) == p[1] % 90 = 0 /\ p[2] % 90 = 0
 Dot(u, v) == ISum([i \in 1..3 |-> u[i] * v[i]], 3)
 
+(* sum of squared value differences over a set of index pairs *)
+RECURSIVE SumSq(_, _)
+SumSq(T, vs) == IF T = {} THEN 0
+                ELSE LET pr == CHOOSE x \in T : TRUE
+                     IN (vs[pr[1]] - vs[pr[2]]) * (vs[pr[1]] - vs[pr[2]]) + SumSq(T \ {pr}, vs)
+
+(* B equal bins [ (b-1) M/B, b M/B ) on [0, M], M = Mn/Md degrees: index of distance d (B+1.. = beyond the cut-off) *)
+BinIdx(d, Mn, Md, B) == ((d * B * Md) \div Mn) + 1
+OnBinEdge(d, Mn, Md, B) == d # 0 /\ (d * B * Md) % Mn = 0
+
 GCCompute(k) ==
   LET ps == PointSets[k]
       vs == Values[k]
       n  == Len(ps)
-      dm == [i \in 1..n |-> [j \in 1..n |-> GCDeg(ps[i], ps[j])]]
+      dm == TLCEval([i \in 1..n |-> TLCEval([j \in 1..n |-> GCDeg(ps[i], ps[j])])])
       pairs == {<<i, j>> \in (1..n) \X (1..n) : i < j}
       ds == {dm[pr[1]][pr[2]] : pr \in pairs}
   IN [ dist |-> dm,
        \* histogram: <<distance, number of pairs, sum of squared value differences>>
        hist |-> {<<d, Cardinality({pr \in pairs : dm[pr[1]][pr[2]] = d}),
-                   LET sel == {pr \in pairs : dm[pr[1]][pr[2]] = d}
-                       RECURSIVE S(_)
-                       S(T) == IF T = {} THEN 0
-                               ELSE LET pr == CHOOSE x \in T : TRUE
-                                    IN (vs[pr[1]] - vs[pr[2]]) * (vs[pr[1]] - vs[pr[2]]) + S(T \ {pr})
-                   IN S(sel)>> : d \in ds},
+                   SumSq({pr \in pairs : dm[pr[1]][pr[2]] = d}, vs)>> : d \in ds},
+       \* the same pairs regrouped into automatic bins: per bin <<count, sum of squares>>
+       auto |-> [a \in 1..Len(AutoBins) |->
+                   LET Mn == AutoBins[a][1]  Md == AutoBins[a][2]  B == AutoBins[a][3]
+                   IN [b \in 1..B |->
+                         LET sel == {pr \in pairs : BinIdx(dm[pr[1]][pr[2]], Mn, Md, B) = b}
+                         IN <<Cardinality(sel), SumSq(sel, vs)>>]],
+       noedge |-> [a \in 1..Len(AutoBins) |-> \A pr \in pairs :
+                     ~OnBinEdge(dm[pr[1]][pr[2]], AutoBins[a][1], AutoBins[a][2], AutoBins[a][3])],
        chord2 |-> [i \in 1..n |-> [j \in 1..n |-> Chord2(dm[i][j])]],
        chk  |-> [ defined   |-> \A i, j \in 1..n : dm[i][j] # NA,
                   symmetric |-> \A i, j \in 1..n : dm[i][j] = dm[j][i] /\ dm[i][i] = 0,
